@@ -88,3 +88,19 @@ check("C11", "model_checking",
       "export/import part: see level_note.",
       _CHAIN_NOTE + "; snapshot corruption part (C11b) is not built in this revision: only the identity-diff half of the property is decided",
       "TLA+ diff-store model + follower replay on real chains + TLC trace validation", "DESIGN.md#c11")
+
+HOOK_COMMITS += ["075278ac"]
+
+check("C17", "model_checking",
+      "Ceremony.tla transcribes the status decision function over the complete abstract input space (186 624 inputs: previous status, "
+      "required flips, missed, qualification flags, score classes as float32 bit patterns, flip classes, upgrade flags); TLC checks the "
+      "property's rules on the model (absent or flip-less identities are never promoted nor left validated, invitations are terminated, "
+      "killed / undefined never come back) and exports the table; the REAL determineNewIdentityState is called at boundary "
+      "representatives of every class (thresholds exactly, one and two ulps around, ceremony-producible neighbours) plus seeded random "
+      "calls; TLC validates the recorded verdicts: property clauses on the OBSERVED status and equality with the table.",
+      "part (a) only: the decision table. Part (b) of the property (two nodes / restarted / cached re-evaluation compute the same epoch "
+      "result) is exercised for the cached-evaluation branch of ApplyNewEpoch by C01's replicas (same injected per-identity values, "
+      "restart / rollback / speculation histories), not with scripted answers; how ApplyNewEpoch derives the decision arguments from "
+      "answers is outside this check",
+      "TLA+ transcription of the decision table (complete input space) + real function at class boundaries + TLC trace validation",
+      "DESIGN.md#c17")
